@@ -201,10 +201,15 @@ impl futures::Sink<u32> for Script {
     fn start_send(self: Pin<&mut Self>, _item: u32) -> Result<(), u32> {
         Ok(())
     }
-    fn poll_flush(self: Pin<&mut Self>, _cx: &mut Context<'_>) -> Poll<Result<(), u32>> {
-        Poll::Ready(Ok(()))
+    // a flush that parks (the script decides what happens to the waker) and a close that completes
+    fn poll_flush(self: Pin<&mut Self>, cx: &mut Context<'_>) -> Poll<Result<(), u32>> {
+        let mut st = self.0.lock().unwrap();
+        st.interp(Some(cx.waker()));
+        Poll::Pending
     }
-    fn poll_close(self: Pin<&mut Self>, _cx: &mut Context<'_>) -> Poll<Result<(), u32>> {
+    fn poll_close(self: Pin<&mut Self>, cx: &mut Context<'_>) -> Poll<Result<(), u32>> {
+        let mut st = self.0.lock().unwrap();
+        st.interp(Some(cx.waker()));
         Poll::Ready(Ok(()))
     }
 }
@@ -214,6 +219,8 @@ pub enum Kind {
     Future,
     Stream,
     Sink,
+    SinkFlush,
+    SinkClose,
 }
 
 /// returns number of ops that actually executed
@@ -262,6 +269,22 @@ pub fn run_script(script: &[Op], kind: Kind, orphan: bool, rep: &mut Report) -> 
                 match Pin::new(&mut obj).poll_ready(&mut cx) {
                     Poll::Ready(Ok(())) => {}
                     other => rep.violation("C19:poll-result", &format!("{}: sink returned {:?}", tag, other), &tag),
+                }
+            }
+            Kind::SinkFlush => {
+                use futures::Sink;
+                let mut obj = trait_obj!(fut as Sink);
+                match Pin::new(&mut obj).poll_flush(&mut cx) {
+                    Poll::Pending => {}
+                    other => rep.violation("C19:poll-result", &format!("{}: parked flush returned {:?}", tag, other), &tag),
+                }
+            }
+            Kind::SinkClose => {
+                use futures::Sink;
+                let mut obj = trait_obj!(fut as Sink);
+                match Pin::new(&mut obj).poll_close(&mut cx) {
+                    Poll::Ready(Ok(())) => {}
+                    other => rep.violation("C19:poll-result", &format!("{}: close returned {:?}", tag, other), &tag),
                 }
             }
         }
@@ -615,7 +638,7 @@ pub fn run(args: &Args, rep: &mut Report) {
     let depth = args.get("depth", 4) as u32;
     let alpha = alphabet();
     let k = alpha.len() as u64;
-    let kinds = [Kind::Future, Kind::Stream, Kind::Sink];
+    let kinds = [Kind::Future, Kind::Stream, Kind::Sink, Kind::SinkFlush, Kind::SinkClose];
     let what = args.kv.get("what").map(|s| s.as_str()).unwrap_or("all").to_string();
     let shard = args.get("shard", 0);
     let shards = args.get("shards", 1);
@@ -633,7 +656,7 @@ pub fn run(args: &Args, rep: &mut Report) {
                     code /= k;
                 }
                 // scripts that cannot start (first op needs a slot that is empty) still run: no-ops
-                let kind = kinds[(idx % 3) as usize];
+                let kind = kinds[(idx % 5) as usize];
                 if run_script(&s, kind, idx % 2 == 0, rep) > 0 {
                     rep.add("scripts_nontrivial", 1);
                     rep.distinct(idx);
@@ -662,7 +685,7 @@ pub fn run(args: &Args, rep: &mut Report) {
                 };
                 s.push(op);
             }
-            if run_script(&s, kinds[(n % 3) as usize], rng.chance(1, 2), rep) > 0 {
+            if run_script(&s, kinds[(n % 5) as usize], rng.chance(1, 2), rep) > 0 {
                 rep.add("scripts_nontrivial", 1);
                 let mut dg = 0;
                 for o in &s {
